@@ -18,6 +18,7 @@ func main() {
 	verbose := flag.Bool("v", false, "verbose")
 	replay := flag.String("replay", "", "replay file")
 	all := flag.Bool("all", false, "check every claimed property")
+	sweepAll := flag.Bool("sweep-safety", false, "run the zero-annotation safety sweep over every function (diagnostic)")
 	flag.Parse()
 	if t := os.Getenv("VERIF_TIER"); t != "" && !isFlagSet("tier") {
 		*tier = t
@@ -26,6 +27,8 @@ func main() {
 	switch {
 	case *replay != "":
 		os.Exit(runReplay(cfg, *replay))
+	case *sweepAll:
+		os.Exit(runSafetySweep(cfg))
 	case *fn != "":
 		os.Exit(runFuncs(cfg, strings.Split(*fn, ",")))
 	case *property != "":
